@@ -229,7 +229,13 @@ func checkICCWebp(p *Program, r *Report) {
 				}
 			}
 			if !good {
-				dataOK, why = false, fmt.Sprintf("the returned ICC bytes are not exactly the 'ICCP' chunk payload in[38 : 38+LE32(in[34:38])] (chunk tag at 30 required) on the path [%s]; returned %s", func() string { k := condKeys(o); if len(k) > 400 { k = "…" + k[len(k)-400:] }; return k }(), trunc(valKey(md.ICCData), 120))
+				dataOK, why = false, fmt.Sprintf("the returned ICC bytes are not exactly the 'ICCP' chunk payload in[38 : 38+LE32(in[34:38])] (chunk tag at 30 required) on the path [%s]; returned %s", func() string {
+					k := condKeys(o)
+					if len(k) > 400 {
+						k = "…" + k[len(k)-400:]
+					}
+					return k
+				}(), trunc(valKey(md.ICCData), 120))
 			}
 			if hasErr {
 				dataOK, why = false, "ICC data and an ICC error are both set"
@@ -240,7 +246,13 @@ func checkICCWebp(p *Program, r *Report) {
 				errOK = false
 			}
 		case flag == 1:
-			errOK, why = false, "ICC flag set but neither data nor an error is reported (data "+trunc(valKey(md.ICCData), 60)+", error "+trunc(valKey(md.ICCErr), 60)+") on […"+func() string { k := condKeys(o); if len(k) > 300 { k = k[len(k)-300:] }; return k }()+"]"
+			errOK, why = false, "ICC flag set but neither data nor an error is reported (data "+trunc(valKey(md.ICCData), 60)+", error "+trunc(valKey(md.ICCErr), 60)+") on […"+func() string {
+				k := condKeys(o)
+				if len(k) > 300 {
+					k = k[len(k)-300:]
+				}
+				return k
+			}()+"]"
 		}
 	}
 	r.Check(flagOK && nFlag > 0, rule, "ICC flag bit", pos, "ICC presence = bit 5 (0x20) of the VP8X flags byte in[20]", why)
